@@ -1057,6 +1057,27 @@ class _BaseHOFormulaBuilder(ABC, Generic[FormulaEngineT, QuantityT]):
         clone._steps = self._steps.copy()
         return clone
 
+    def _engine_names(self) -> dict[int, str]:
+        """Return the name to fetch each engine of the expression under.
+
+        Input streams are shared by name when the expression is built.  An engine
+        that is used several times keeps one name, and so one stream, but different
+        engines never share one, even when they were created with the same name.
+
+        Returns:
+            A name for each engine in the expression, by the `id()` of the engine.
+        """
+        names: dict[int, str] = {}
+        for typ, value in self._steps:
+            if typ != TokenType.COMPONENT_METRIC or id(value) in names:
+                continue
+            assert isinstance(value, (FormulaEngine, FormulaEngine3Phase))
+            name = value._name  # pylint: disable=protected-access
+            while name in names.values():
+                name += "'"
+            names[id(value)] = name
+        return names
+
 
 class HigherOrderFormulaBuilder(
     Generic[QuantityT], _BaseHOFormulaBuilder[FormulaEngine[QuantityT], QuantityT]
@@ -1077,11 +1098,12 @@ class HigherOrderFormulaBuilder(
             A `FormulaEngine` instance.
         """
         builder = FormulaBuilder(name, self._create_method)
+        engine_names = self._engine_names()
         for typ, value in self._steps:
             if typ == TokenType.COMPONENT_METRIC:
                 assert isinstance(value, FormulaEngine)
                 builder.push_metric(
-                    value._name,  # pylint: disable=protected-access
+                    engine_names[id(value)],
                     value.new_receiver(),
                     nones_are_zeros=nones_are_zeros,
                 )
@@ -1119,12 +1141,13 @@ class HigherOrderFormulaBuilder3Phase(
             FormulaBuilder(name, self._create_method),
             FormulaBuilder(name, self._create_method),
         ]
+        engine_names = self._engine_names()
         for typ, value in self._steps:
             if typ == TokenType.COMPONENT_METRIC:
                 assert isinstance(value, FormulaEngine3Phase)
                 for phase in range(3):
                     builders[phase].push_metric(
-                        f"{value._name}-{phase+1}",  # pylint: disable=protected-access
+                        f"{engine_names[id(value)]}-{phase+1}",
                         value._streams[  # pylint: disable=protected-access
                             phase
                         ].new_receiver(),
